@@ -58,7 +58,7 @@ def execute(ctx, case):
     allv = np.concatenate([posf, negf])
     ths = gen.thresholds(rng, allv)
     if case["_seed"] % 6 == 0:  # a long threshold vector in arbitrary order with repeats (per-sample thresholds, pooled grids)
-        ths = rng.choice(ths, int(rng.integers(1000, 2500)))
+        ths = rng.choice(ths, int(rng.choice([1000, 2500, 4100, 6000])))
     span = max(1.0, float(np.ptp(allv)) if allv.size else 1.0, float(np.abs(allv).max()) if allv.size else 1.0)
     s = Scores(pos, neg, nb_easy_pos=ep, nb_easy_neg=en, score_class=sc, equal_class=ec)
     sig = (sc, ec, case["kind"], ep > 0, en > 0, "exact" if case["exact"] else "-")
